@@ -64,6 +64,10 @@ def make_crystal(rng, kind):
     n = int(rng.integers(2, 6))
     els = [Element[str(s)] for s in rng.choice(["C", "N", "O", "H", "S"], size=n)]
     pos = rng.uniform(-0.4, 1.4, (n, 3))          # centres inside and outside the reference cell
+    if rng.integers(0, 2):                         # some sites on exact special positions (images coincide and are merged)
+        pos[0] = rng.choice([0.0, 0.5], size=3)
+        if n > 2:
+            pos[1] = [0.0, 0.0, rng.uniform(0.1, 0.4)]
     return Crystal(uc, SpaceGroup(sg), AsymmetricUnit(els, pos))
 
 
@@ -135,6 +139,17 @@ def native_queries(crystal, radius, rng, label):
         bad = {"returned": len(got_pairs), "expected": len(exp_pairs), "missing": len(set(exp_pairs) - set(got_pairs)), "extra": len(set(got_pairs) - set(exp_pairs)),
                "duplicates": len(got_pairs) - len(set(got_pairs))}
     else:
+        # parent-site indices, independently of the unit-cell list: the reported atom must be a symmetry image of asymmetric-unit site `asym_atom` with that element
+        ops = crystal.space_group.symmetry_operations
+        apos = crystal.asymmetric_unit.positions
+        anum = np.asarray(crystal.asymmetric_unit.atomic_numbers)
+        for el, fp, aa in list(zip(res["element"], res["frac_pos"], res["asym_atom"]))[:60]:
+            ok_img = 0 <= int(aa) < len(apos) and anum[int(aa)] == el and any(
+                np.abs((lambda dlt: dlt - np.round(dlt))(op.apply(apos[int(aa)][None, :])[0] - fp)).max() < 1e-6 for op in ops)
+            if not ok_img:
+                bad = {"reported_parent_site_is_not_a_symmetry_parent": {"asym_atom": int(aa), "element": int(el), "frac_pos": np.asarray(fp).tolist()}}
+                break
+    if bad is None:
         # reported data belong to those images
         for u, c, el, cp, fp, aa in zip(res["uc_atom"], res["cell"], res["element"], res["cart_pos"], res["frac_pos"], res["asym_atom"]):
             if el != uc["element"][u] or aa != uc["asym_atom"][u] or not np.allclose(fp, uc["frac_pos"][u] + c, atol=1e-9) or \
@@ -320,6 +335,9 @@ def build(ctx):
     ctx.ground("crystal.Crystal.slab/loop0/block_stores", ok_blocks, tag="F", clause="iteration i writes rows [i*n_uc, (i+1)*n_uc) of pos and slab_cells only (disjoint blocks, one per cell)",
                detail=stores, witness=stores, fn=f_slab)
 
+    srcme = ast.unparse(f_me.node)
+    ctx.ground("crystal.Crystal.molecule_environment/threshold_parameter_used", "if d < threshold:" in srcme and "1e-3" not in srcme.split("def molecule_environment")[1].split(":", 1)[1].replace("threshold=0.001", ""),
+               tag="F", clause="the centre molecule's own atoms are recognised with the caller's `threshold`, not a hard-coded tolerance", witness="`d < threshold` not found in molecule_environment", fn=f_me)
     slab_and_ball_instances(ctx, mod)
     bounded(ctx)
 
@@ -492,6 +510,18 @@ def bounded(ctx):
                 fails.append({"input": {"crystal": "acetic_acid.cif", "query": "molecule_environments", "radius": radius}, "observed": diff,
                               "clause": "molecule environment: exactly the images within the radius of the nearest atom of the molecule, the molecule's own atoms excluded",
                               "key": "molecule_environment"})
+        # a centre molecule whose coordinates are slightly off the crystal's sites (0.01 A), recognised with a widened threshold
+        import copy as _copy
+        mol0 = _copy.deepcopy(c.symmetry_unique_molecules()[0])
+        mol0.positions = mol0.positions + 0.006 * np.sign(rng.normal(size=mol0.positions.shape))
+        _, els_p, pos_p = c.molecule_environment(mol0, radius=radius, threshold=0.05)
+        evals += 1
+        exp, _ = brute_force(c, mol0.positions, radius)
+        e_el, e_pos = not_own(exp, uc, mol0.positions, tol=0.05)
+        diff = compare_atoms(els_p, pos_p, e_el, e_pos)
+        if diff and len(fails) < 3:
+            fails.append({"input": {"crystal": "acetic_acid.cif", "query": "molecule_environment(perturbed molecule, threshold=0.05)", "radius": radius}, "observed": diff,
+                          "clause": "the centre's own atoms are excluded using the caller's threshold", "key": "molecule_environment_threshold"})
         (cel, cpos), (nel, npos) = c.atom_group_surroundings([0, 1, 2], radius=radius)
         evals += 1
         exp, _ = brute_force(c, cpos, radius)
